@@ -583,6 +583,15 @@ def run(ctx):
     _extend_to_inf(ctx)
     _validation(ctx)
     _loop_rules(ctx)
+    # the geometric helpers the appliers call (uninterpreted above) realise the requests on a generic non-uniform axis:
+    # C37's exhaustive snapping / anchoring tables, evaluated here because "satisfies every constraint" rests on them
+    from . import c37
+
+    n0 = len(ctx.obligations)
+    c37._snapping(ctx)
+    for o in ctx.obligations[n0:]:
+        o.rule = "R26.8"
+    ctx.require_count("R26.8 helper tables", len(ctx.obligations) - n0, 5)
     ctx.require_count("C26", len(ctx.obligations), 400)
     ctx.trusted_base += ["opaque recording grid (geometric helpers are uninterpreted functions of their arguments; their arithmetic is C37)", "finite tables over axis / side / option values with concrete non-trivial numbers for optional margins and offsets"]
     ctx.assume("uniform grids for index-space margins/offsets (non-uniform grids reject non-zero ones before use)")
